@@ -279,6 +279,18 @@ func RaceMain(prop string, seed uint64, seconds int) int {
 		return 2
 	}
 	defer os.RemoveAll(dir)
+	if one := os.Getenv("VERIF_RACE_ONE"); one != "" {
+		var s uint64
+		fmt.Sscanf(one, "%x", &s)
+		var err error
+		if prop == "C13" {
+			err = raceC13(s, dir)
+		} else {
+			err = raceC09(s, dir)
+		}
+		fmt.Println("RACE-ONE", err)
+		return 0
+	}
 	deadline := time.Now().Add(time.Duration(seconds) * time.Second)
 	par := runtime.NumCPU() / 2
 	if par < 2 {
